@@ -4,6 +4,10 @@ A case is one text line (format: lean/Bma400/Proto.lean).  Everything random
 derives from one `random.Random(seed)` so that a stream replays exactly.
 """
 import random
+import os
+
+# quick-tier multiplier of the random stream sizes (the exhaustive streams ignore it)
+QS = int(os.environ.get('VERIF_QSCALE', '3'))
 
 B3 = ['b', 'b', 'b']
 SETTERS = {
@@ -233,7 +237,7 @@ def stream_setters(rng, tier):
                 if t == 'b':
                     argsets = [[(k >> 0) & 1, (k >> 1) & 1, (k >> 2) & 1] for k in range(8)]
                 else:
-                    vals = BOUND[t] + [rand_value(rng, t) for _ in range(40 if tier == 'quick' else 400)]
+                    vals = BOUND[t] + [rand_value(rng, t) for _ in range(QS * 40 if tier == 'quick' else 400)]
                     if t == 'i8' or (tier != 'quick' and t == 'i16'):
                         vals = all_values(t)
                     argsets = []
@@ -315,7 +319,7 @@ def stream_getters_hist(rng, tier):
     """C17: every getter after configuration histories (a getter must not depend on the
     recorded configuration) and on random register files"""
     out = []
-    for i in range(150 if tier == 'quick' else 3000):
+    for i in range(QS * 150 if tier == 'quick' else 3000):
         ops = reach_state(rng, rich=True)
         ops += ['fifo rddis:%d' % rng.randrange(2), 'acc pm:%d' % rng.randrange(3)]
         rng.shuffle(ops)
@@ -367,7 +371,7 @@ def stream_getters(rng, tier):
                         l2[a] = other
                 out.append(case('g%d' % n, 'i2c', ops, 'low=' + hexs(l2)))
                 n += 1
-    for i in range(300 if tier == 'quick' else 20000):
+    for i in range(QS * 300 if tier == 'quick' else 20000):
         out.append(case('g%d' % n, rng.choice(['i2c', 'spi']), ops, 'low=' + rand_low(rng)))
         n += 1
     if tier != 'quick':
@@ -404,7 +408,7 @@ def stream_accel(rng, tier):
             out.append(case('a%d' % n, 'i2c', ops, 'low=' + hexs(low)))
             n += 1
     # range tracking through histories of accepted / rejected / failed requests, self tests, resets
-    for i in range(400 if tier == 'quick' else 6000):
+    for i in range(QS * 400 if tier == 'quick' else 6000):
         ops = []
         for _ in range(rng.randint(2, 10)):
             r = rng.random()
@@ -574,7 +578,7 @@ def stream_fifo_wf(rng, tier):
             out.append(fifo_case('w%d' % n, rng, s, t))
             n += 1
     # random long streams, every truncation point of a last frame
-    for i in range(300 if tier == 'quick' else 5000):
+    for i in range(QS * 300 if tier == 'quick' else 5000):
         specs = [rand_frame(rng) for _ in range(rng.choice([1, 2, 5, 20, 60, 200, 400, 700]))]
         r = rng.random()
         if r < 0.3:
@@ -657,7 +661,7 @@ def stream_fifo_any(rng, tier):
             rec(prefix + [a], L - 1)
     for L in range(3, maxlen + 1):
         rec([], L)
-    for i in range(1500 if tier == 'quick' else 30000):
+    for i in range(QS * 1500 if tier == 'quick' else 30000):
         L = rng.choice([3, 4, 5, 7, 8, 9, 15, 16, 33, 100, 255, 256, 1023, 1024]) if rng.random() < 0.3 else rng.randint(3, 40)
         r = rng.random()
         if r < 0.5:
@@ -726,7 +730,7 @@ def stream_selftest(rng, tier):
                                     'pos=%s neg=%s low=%s' % (hexs(pb), hexs(nb), rand_low(rng))))
                     n += 1
     # an aborted test, reconfiguration, a later complete test (which must restore the LATER configuration)
-    for i in range(150 if tier == 'quick' else 3000):
+    for i in range(QS * 150 if tier == 'quick' else 3000):
         pre = reach_state(rng)
         mid = ['acc scale:%d osr:%d odr:%d' % (rng.randrange(4), rng.randrange(4), rng.choice([2, 3, 5, 6])),
                'int drdy:%d step:%d' % (rng.randrange(2), rng.randrange(2)), rand_request(rng, 'fifo'), rand_request(rng)]
@@ -737,7 +741,7 @@ def stream_selftest(rng, tier):
         out.append(case('t%d' % n, 'i2c', ops,
                         'pos=%s neg=%s low=%s' % (hexs(sample6(rng, True)), hexs(sample6(rng, False)), rand_low(rng))))
         n += 1
-    for i in range(150 if tier == 'quick' else 5000):
+    for i in range(QS * 150 if tier == 'quick' else 5000):
         pre = reach_state(rng)
         out.append(case('t%d' % n, rng.choice(['i2c', 'spi']), pre + ['selftest', 'data', rand_request(rng)],
                         'pos=%s neg=%s low=%s' % (hexs(sample6(rng, True)), hexs(sample6(rng, False)), rand_low(rng))))
@@ -812,7 +816,7 @@ def rand_op(rng):
 def stream_reset(rng, tier):
     """C11: (history; reset; follow-up) and (fresh; follow-up) as twin cases `r<k>a` / `r<k>b`"""
     out = []
-    for i in range(250 if tier == 'quick' else 4000):
+    for i in range(QS * 250 if tier == 'quick' else 4000):
         hist = reach_state(rng)
         for _ in range(rng.randint(0, 6)):
             op = rand_op(rng)
@@ -843,7 +847,7 @@ def stream_catalogue(rng, tier, ctors=('i2c', 'spi', 'spi3')):
     out = []
     n = 0
     for ctor in ctors:
-        for i in range(40 if tier == 'quick' else 600):
+        for i in range(QS * 40 if tier == 'quick' else 600):
             ops = reach_state(rng)
             rest = catalogue_ops(rng) + [rand_request(rng, b) for b in BUILDERS]
             rng.shuffle(rest)
@@ -861,7 +865,7 @@ def stream_catalogue_faults(rng, tier, ctors):
     out = []
     n = 0
     for ctor in ctors:
-        for i in range(120 if tier == 'quick' else 3000):
+        for i in range(QS * 120 if tier == 'quick' else 3000):
             ops = reach_state(rng, rich=False) if rng.random() < 0.4 else []
             for _ in range(rng.randint(2, 8)):
                 op = rand_op(rng)
@@ -884,7 +888,7 @@ def stream_reapply(rng, tier, ctors):
     out = []
     n = 0
     for ctor in ctors:
-        for i in range(150 if tier == 'quick' else 3000):
+        for i in range(QS * 150 if tier == 'quick' else 3000):
             b = rng.choice(BUILDERS)
             rq = rand_request(rng, b, 3)
             if b in ('gen1', 'gen2', 'act'):
@@ -901,7 +905,7 @@ def stream_reapply(rng, tier, ctors):
 def stream_twin(rng, tier):
     """C14: the same program over I2C (`…a`) and SPI (`…b`)"""
     out = []
-    for i in range(300 if tier == 'quick' else 5000):
+    for i in range(QS * 300 if tier == 'quick' else 5000):
         ops = reach_state(rng, rich=rng.random() < 0.5) + [rand_op(rng) for _ in range(rng.randint(1, 14))]
         hdr = 'low=%s pos=%s neg=%s fifo=%s' % (rand_low(rng), hexs(sample6(rng, True)), hexs(sample6(rng, False)),
                                               hexs([rng.randrange(256) for _ in range(20)]))
@@ -938,7 +942,7 @@ def stream_ctor(rng, tier):
         for f in firsts:
             out.append(case('n%d' % n, ctor, [f]))
             n += 1
-        for i in range(60 if tier == 'quick' else 1500):
+        for i in range(QS * 60 if tier == 'quick' else 1500):
             out.append(case('n%d' % n, ctor, [rand_request(rng, maxn=6)]))
             n += 1
     return out
@@ -947,7 +951,7 @@ def stream_ctor(rng, tier):
 def stream_fifo_guard(rng, tier):
     """C19: histories over {power on/off, other FIFO setters, faults, self test, reset} then reads"""
     out = []
-    for i in range(500 if tier == 'quick' else 8000):
+    for i in range(QS * 500 if tier == 'quick' else 8000):
         ops = []
         if rng.random() < 0.3:
             ops += reach_state(rng, rich=False)
@@ -1050,7 +1054,7 @@ def fault_bases(rng, tier, builders_only=False):
     out = []
     n = 0
     for ctor in ('i2c', 'spi'):
-        for i in range(25 if tier == 'quick' else 300):
+        for i in range(QS * 25 if tier == 'quick' else 300):
             for last in [rand_request(rng, b, 5) for b in BUILDERS] + ([] if builders_only else ['selftest', 'reset', 'data', 'rfifo:5', 'rfifo:300', 'flush', 'status',
                                                                       'pin int1:%d tap:3 actch:1 step:2 wkup:1 gen1:1 drdy:1 fwm:3' % rng.randrange(4)]):
                 ops = reach_state(rng)
